@@ -57,6 +57,26 @@ class C01(Prop):
                     k, v = rng.choice(ext)
                     top["bound"] = list(top.get("bound", [])) + [[k, v]]
                     c["values"] = [kv for kv in c["values"] if kv[0] != k]
+            wrappers = [n for n in top["nodes"] if n["kind"] == "graph"]
+            if outs and wrappers and rng.random() < 0.35:
+                # nested: the selection names outputs of plain top-level nodes only, and an input that only the nested graph consumes is
+                # bound INSIDE it: the nested graph is not needed for the selection, yet it is satisfiable and still runs exactly once
+                w = rng.choice(wrappers)
+                cur_to_orig = {cur: orig for orig, cur in w.get("inRen", [])}
+                inner = c["program"][w["inner"]]
+                others: set[str] = set()
+                for n in top["nodes"]:
+                    if n is not w:
+                        others |= {x for x, _ in refeval.node_inputs(c["program"], n)}
+                w_inputs = {dict(w.get("inRen", [])).get(q, q) for q in refeval.graph_inputs(c["program"], w["inner"])}
+                cands = [kv for kv in c["values"] if kv[0] in w_inputs and kv[0] not in others and kv[0] not in {k for k, _ in top.get("bound", [])}]
+                if cands and not inner.get("selected"):
+                    k, v = rng.choice(cands)
+                    orig = cur_to_orig.get(k, k)
+                    if orig not in {b for b, _ in inner.get("bound", [])}:
+                        inner["bound"] = list(inner.get("bound", [])) + [[orig, v]]
+                        c["values"] = [kv for kv in c["values"] if kv[0] != k]
+                        top["selected"] = rng.sample(outs, rng.randint(1, min(2, len(outs))))
             for runner in ("sync", "async"):
                 yield {"program": c["program"], "values": c["values"], "runner": runner, "late_renames": rng.random() < 0.5}
 
